@@ -212,12 +212,7 @@ func c14Prepare(e *env, b *c14Bundle) []*c14Unit {
 	return units
 }
 
-func c14Node(e *env, units []*c14Unit, tag string) {
-	var nu []jsNodeUnit
-	for _, u := range units {
-		nu = append(nu, u.node)
-	}
-	res, err := jsRunNode(nu, tag, "C14")
+func c14NodeEval(e *env, units []*c14Unit, tag string, res []jsNodeUnitRes, err error) {
 	if err != nil {
 		e.res.Fail(hx.Violation{Kind: "mismatch", What: "node could not be run", Case: "node batch " + tag, Observed: err.Error()}, "")
 		return
